@@ -977,6 +977,30 @@ fn shape_cases() -> Vec<Case> {
             }
         }
     }
+    // scale: more than a thousand route-filters of one family leave (or enter) the evaluated set in one
+    // run (a large as-set churns): whatever is done differently above some size must still be a merge
+    // patch that deletes what is stale
+    for (tag, n_old, n_new) in [("churn-1100-to-5", 1100usize, 5usize), ("churn-1025-to-1", 1025, 1), ("grow-3-to-1100", 3, 1100), ("churn-1100-to-1100", 1100, 1100)] {
+        let big = |n: usize, off: u32| -> Vec<Range> {
+            (0..n as u32).map(|k| v4([10, ((k + off) / 256) as u8, ((k + off) % 256) as u8, 0], 24, 24, 24)).collect()
+        };
+        let old4 = big(n_old, 0);
+        let new4 = big(n_new, 2000);
+        let u6 = universe(true);
+        let st = RStmt {
+            name: "fltr-big".into(),
+            ann: Ann::Parsed(tag_expr(1)),
+            active: true,
+            reject: true,
+            eval: Some((new4, vec![u6[0].clone()])),
+        };
+        out.push(Case {
+            agent: true,
+            cfg: vec![agent_policy("fltr-big", &old4, &u6[0..1], false)],
+            steps: vec![vec![st.clone()], vec![st]],
+            tag: format!("scale.{tag}"),
+        });
+    }
     out
 }
 
